@@ -49,6 +49,53 @@ fn named(g: &mut Gen, parent_tid: usize, name: ElementName, item: &str) -> Optio
     Some((n, ctid))
 }
 
+/// ECUC-MODULE-CONFIGURATION-VALUES / CONTAINERS / ECUC-CONTAINER-VALUE with parameter and reference values that are keyed
+/// by DEFINITION-REF only (anonymous elements the merge has to match by that key)
+fn gen_ecuc(g: &mut Gen, elements_tid: usize, name: &str) -> Option<ANode> {
+    let si = SpecIndex::get();
+    let (mut m, mtid) = named(g, elements_tid, ElementName::EcucModuleConfigurationValues, name)?;
+    let sub = |tid: usize, n: ElementName, vi: usize| -> Option<(ANode, usize)> {
+        let (t, _) = si.types[tid].etype.find_sub_element(n, 1 << vi)?;
+        Some((ANode::new(n, t), si.id_of(t)))
+    };
+    let vi = g.vi;
+    let text = |tid: usize, n: ElementName, s: &str| -> Option<ANode> {
+        let (mut e, _) = sub(tid, n, vi)?;
+        e.content.push(AContent::Text(AVal::Str(s.to_string())));
+        Some(e)
+    };
+    let (mut conts, ctid) = sub(mtid, ElementName::Containers, vi)?;
+    let (mut c, cvtid) = named(g, ctid, ElementName::EcucContainerValue, "c")?;
+    let mut dr = text(cvtid, ElementName::DefinitionRef, "/def/c")?;
+    dr.attrs.push((AttributeName::Dest, AVal::Enum(autosar_data::EnumItem::EcucParamConfContainerDef)));
+    c.content.push(AContent::Elem(dr));
+    let (mut pv, pvtid) = sub(cvtid, ElementName::ParameterValues, vi)?;
+    for i in 0..(1 + g.tape.below(3)) {
+        let (mut p, ptid) = sub(pvtid, ElementName::EcucNumericalParamValue, vi)?;
+        let mut d = text(ptid, ElementName::DefinitionRef, &format!("/def/c/p{i}"))?;
+        d.attrs.push((AttributeName::Dest, AVal::Enum(autosar_data::EnumItem::EcucIntegerParamDef)));
+        p.content.push(AContent::Elem(d));
+        p.content.push(AContent::Elem(text(ptid, ElementName::Value, &format!("{}", i * 3))?));
+        pv.content.push(AContent::Elem(p));
+    }
+    c.content.push(AContent::Elem(pv));
+    let (mut rv, rvtid) = sub(cvtid, ElementName::ReferenceValues, vi)?;
+    for i in 0..(2 + g.tape.below(3)) {
+        let (mut r, rtid) = sub(rvtid, ElementName::EcucReferenceValue, vi)?;
+        let mut d = text(rtid, ElementName::DefinitionRef, &format!("/def/c/r{i}"))?;
+        d.attrs.push((AttributeName::Dest, AVal::Enum(autosar_data::EnumItem::EcucReferenceDef)));
+        r.content.push(AContent::Elem(d));
+        let mut v = text(rtid, ElementName::ValueRef, &format!("/p1/t{i}"))?;
+        v.attrs.push((AttributeName::Dest, AVal::Enum(autosar_data::EnumItem::SystemSignal)));
+        r.content.push(AContent::Elem(v));
+        rv.content.push(AContent::Elem(r));
+    }
+    c.content.push(AContent::Elem(rv));
+    conts.content.push(AContent::Elem(c));
+    m.content.push(AContent::Elem(conts));
+    Some(m)
+}
+
 fn gen_package(g: &mut Gen, pkgs_tid: usize, name: &str, depth: usize) -> Option<ANode> {
     let si = SpecIndex::get();
     let (mut pkg, ptid) = named(g, pkgs_tid, ElementName::ArPackage, name)?;
@@ -70,6 +117,11 @@ fn gen_package(g: &mut Gen, pkgs_tid: usize, name: &str, depth: usize) -> Option
                 g.remaining = 6;
                 g.fill(tid, &mut e, 2);
                 g.remaining = save;
+                els.content.push(AContent::Elem(e));
+            }
+        }
+        if g.tape.chance(60) {
+            if let Some(e) = gen_ecuc(g, etid, "ecuc") {
                 els.content.push(AContent::Elem(e));
             }
         }
@@ -159,8 +211,16 @@ fn assign(n: &ANode, files: u8, version: &[AutosarVersion], t: &mut Tape, force_
     let mut kids = vec![];
     // children without identity (no item name) of one kind cannot be told apart by any merge: they stay together
     let mut per_name: std::collections::HashMap<ElementName, u8> = std::collections::HashMap::new();
+    // the library matches anonymous BSW values by their DEFINITION-REF: a child whose DEFINITION-REF text is unique among its
+    // same-kind siblings can be told apart and may get a file set of its own
+    let defref = |c: &ANode| -> Option<String> {
+        c.children().find(|k| k.name == ElementName::DefinitionRef).and_then(|k| {
+            k.content.iter().find_map(|x| if let AContent::Text(AVal::Str(s)) = x { Some(s.clone()) } else { None })
+        })
+    };
     for c in n.children() {
-        let anonymous = c.item_name().is_none();
+        let keyed = defref(c).is_some_and(|d| n.children().filter(|k| k.name == c.name && defref(k).as_deref() == Some(d.as_str())).count() == 1);
+        let anonymous = c.item_name().is_none() && !keyed;
         if anonymous {
             if let Some(f) = per_name.get(&c.name) {
                 kids.push(assign(c, *f, version, t, false));
